@@ -14,13 +14,13 @@ from vf import geom
 from vf import xc17_geo as xg
 
 ID = "C17"
-BUDGET = {"quick": 16000, "thorough": 600000}
+BUDGET = {"quick": 24000, "thorough": 600000}
 MIN_KEYS = 60
 
 CLAMP_KINDS = ["line", "radial", "plane", "curve", "surface", "free"]
 LINK_KINDS = ["translation", "rotation", "symmetry"]
 CURVE_FAMS = ["line", "circle", "arc", "helix", "parabola", "cubic", "linear", "spline"]
-SURF_FAMS = ["paraboloid", "cylinder", "sphere", "sheared"]
+SURF_FAMS = ["paraboloid", "cylinder", "sphere", "sheared", "wavy"]
 REPRS = ["array", "list", "intlist"]
 
 REQUIRED = (
@@ -59,9 +59,10 @@ ASSUMPTIONS = [
     "fresh clamp created on the constraint: |position - creation point| <= 100*TOL*max(1,size) (TOL = 1e-7 is the "
     "tolerance the library hands to scipy.optimize.minimize; measured worst case 1e-7*size)",
     "fresh clamp created off the constraint: position on the constraint and |position - creation point| <= "
-    "(independently computed minimum distance) + 10*TOL*max(1,size) — the distance, not the foot point, is what the "
-    "optimiser's ftol=TOL controls (foot-point error ~ sqrt(2*d*excess)); creation offsets <= 0.1..0.3 of the local "
-    "radius of curvature so that the closest point is unique; closed curves are not entered within 0.6 rad of the seam",
+    "(independently computed minimum distance) + 100*TOL*max(1,size) - the distance, not the foot point, is what the "
+    "optimiser's ftol=TOL controls (foot-point error ~ sqrt(2*d*excess)); measured worst excess 3*TOL; creation offsets "
+    "<= 0.1..0.3 of the local radius of curvature so that the closest point is unique; closed curves are not entered "
+    "within 0.6 rad of the seam; a surface with many local distance minima (wavy) only with initial_params",
     "positions for explicit parameters: distance to the declared constraint <= 1e-9*max(1,size) (1e-8 for "
     "interpolated curves judged against a refined dense sampling of the curve object)",
     "links: follower within 1e-9*scale of leader+v0 / Householder mirror, 5e-7*scale of the Rodrigues rotation (arccos "
@@ -305,11 +306,19 @@ def gen_surface(rng, fam, ccls, init, bounded):
             spec["a"] = rng.uniform(0.5, 2.0)
             urange, vrange = (-1.2, 1.2), (-1.0, 1.0)
             rcurv = spec["s"]
+        elif fam == "wavy":
+            # amplitude a, wave number b: the distance from a point has one local minimum per wave, so this family
+            # is only entered with initial_params (as the class documents for such surfaces)
+            spec["a"], spec["b"] = rng.uniform(0.3, 0.6), rng.uniform(2.5, 4.0)
+            urange, vrange = (-3.3, 3.3), (-1.0, 1.0)
+            rcurv = spec["s"] / (spec["a"] * spec["b"] ** 2)
         else:
             urange, vrange = (-1.2, 1.2), (-0.9, 0.9)
             rcurv = spec["s"]
     surf = xg.Surface(spec)
     foot = [rng.uniform(*urange) * 0.9, rng.uniform(*vrange) * 0.9]
+    if fam == "wavy" and abs(foot[0]) < 1.5:
+        foot[0] = math.copysign(rng.uniform(1.5, 3.0), foot[0] or 1.0)  # at least ~a wave length from the default start
     point = surf.point(foot)
     if ccls == "off":
         point = point + surf.normal(foot) * rng.choice([-1, 1]) * rng.uniform(0.01, 0.25) * rcurv
@@ -325,6 +334,8 @@ def gen_surface(rng, fam, ccls, init, bounded):
     else:
         params = [[rng.uniform(*urange), rng.uniform(*vrange)] for _ in range(4)]
     initial = [foot[0] + rng.uniform(-0.1, 0.1), foot[1] + rng.uniform(-0.1, 0.1)] if init else None
+    if fam == "wavy":
+        initial = [foot[0] + rng.uniform(-0.1, 0.1) / spec["b"], foot[1] + rng.uniform(-0.1, 0.1)]
     if initial is not None and bounds is not None:
         initial = [min(max(initial[0], bounds[0][0]), bounds[0][1]), min(max(initial[1], bounds[1][0]), bounds[1][1])]
     return {"kind": "surface", "fam": fam, "size": size, "surface": spec, "bounds": bounds,
@@ -412,7 +423,7 @@ def classes():
                 out.append(("curve", (fam, c, init)))
     for fam in SURF_FAMS:
         for c in ("on", "off"):
-            for init in (False, True):
+            for init in ((True,) if fam == "wavy" else (False, True)):
                 for bounded in (False, True):
                     out.append(("surface", (fam, c, init, bounded)))
     out.append(("free", ()))
@@ -452,7 +463,7 @@ TOL = 1e-7  # the library's TOL (util.constants), which it passes to scipy.optim
 
 def _tols(size):
     s = max(1.0, size)
-    return {"on": 100 * TOL * s, "excess": 10 * TOL * s, "manifold": 1e-9 * s, "sampled": 1e-8 * s}
+    return {"on": 100 * TOL * s, "excess": 100 * TOL * s, "manifold": 1e-9 * s, "sampled": 1e-8 * s}
 
 
 def _nontrivial(origin, direction, size):
@@ -510,6 +521,7 @@ def _judge_clamp(ctx, case, clamp, oracle, create_point, ccls, kind, sweep):
     pos = arr(clamp.position)
     cp = arr(create_point)
     label = oracle.label
+    mk = f"{kind}/{case['fam']}" if "fam" in case else kind  # name under which the worst error / tolerance is kept
     ctx.evaluated()
     # -- fresh clamp --------------------------------------------------------------------------------
     if pos.shape != (3,) or not np.all(np.isfinite(pos)):
@@ -518,7 +530,7 @@ def _judge_clamp(ctx, case, clamp, oracle, create_point, ccls, kind, sweep):
     if ccls == "on":
         ctx.count(f"judged:fresh-on:{kind}")
         err = geom.dist(pos, cp)
-        _margin(f"{kind}:fresh-on", err / t["on"])
+        _margin(f"{mk}:fresh-on", err / t["on"])
         if err > t["on"]:
             ctx.violation(f"{label}:fresh-position-differs-from-creation-point",
                           f"created ON the constraint at {cp.tolist()} but reports {pos.tolist()} (|diff|={err:.3e} > "
@@ -527,7 +539,7 @@ def _judge_clamp(ctx, case, clamp, oracle, create_point, ccls, kind, sweep):
     else:
         ctx.count(f"judged:fresh-off:{kind}")
         dm = oracle.dist(pos)
-        _margin(f"{kind}:fresh-off-member", dm / oracle.tol_member)
+        _margin(f"{mk}:fresh-off-member", dm / oracle.tol_member)
         if dm > oracle.tol_member:
             ctx.violation(f"{label}:fresh-position-off-constraint",
                           f"created at {cp.tolist()} (off the constraint); reported position {pos.tolist()} is {dm:.3e} "
@@ -535,7 +547,7 @@ def _judge_clamp(ctx, case, clamp, oracle, create_point, ccls, kind, sweep):
             return False
         dmin = oracle.min_dist(cp)
         exc = geom.dist(pos, cp) - dmin
-        _margin(f"{kind}:fresh-off-excess", exc / t["excess"])
+        _margin(f"{mk}:fresh-off-excess", exc / t["excess"])
         if exc > t["excess"]:
             ctx.violation(f"{label}:fresh-position-not-closest-point",
                           f"created at {cp.tolist()}: reported position {pos.tolist()} is {geom.dist(pos, cp):.9g} from "
@@ -554,7 +566,7 @@ def _judge_clamp(ctx, case, clamp, oracle, create_point, ccls, kind, sweep):
             ctx.violation(f"{label}:position-malformed", f"params {p} -> position {q!r}; case {_brief(case)}")
             return False
         dm = oracle.dist(q)
-        _margin(f"{kind}:sweep", dm / oracle.tol_member)
+        _margin(f"{mk}:sweep", dm / oracle.tol_member)
         if dm > oracle.tol_member:
             ctx.violation(f"{label}:position-off-constraint",
                           f"params {p} (inside the bounds) -> position {q.tolist()}, {dm:.3e} away from the declared "
